@@ -21,7 +21,11 @@
     [\item] without its optional argument: a bare macro standing for
     ["\n  * "]), [abstract_items] for node lists.
 
-    Accent macros with one argument ([KAccent]) are core as well.
+    Accent macros with one argument ([KAccent]) are core as well; the accent goes
+    over the argument's CONTENTS: the braces of a braced argument are argument
+    delimiters and are never kept, whatever [keep_braced_groups] says
+    ([C03_rules], [C03_accent_over_kept_group]; pylatexenc accented the kept
+    braces too: defect repaired by [fixes/C03-accent-kept-group.diff]).
 
     Not covered by these theorems (%-templates over macro arguments, the
     optional argument of [\item]): [\frac], [\sqrt], [\item[..]] — they are
@@ -86,7 +90,13 @@ Theorem C03_rules : forall (acc : N -> N -> str) (o : opts) (sl : sls),
   /\ (forall b, render1 acc o sl (KEnvBody b) = render acc o sl b)
   /\ (forall pre post b, render1 acc o sl (KEnvWrap pre post b) = pre ++ render acc o sl b ++ post)
   /\ (forall r p, render1 acc o sl (KSymbol r p) = r) /\ (forall r, render1 acc o sl (KSpecials r) = r)
-  /\ (forall comb k, render1 acc o sl (KAccent comb k)
+  (* accents: every character of the stripped text of the argument's contents gets the combining mark: a braced
+     argument contributes the rendering of its BODY (its braces are argument delimiters: never kept, whatever
+     keep_braced_groups says), any other argument (a single token) its own rendering *)
+  /\ (forall comb b, render1 acc o sl (KAccent comb (KGroup b))
+                     = flat_map (fun ch => acc ch comb) (py_strip (render acc o sl b)))
+  /\ (forall comb k, (forall b, k <> KGroup b) ->
+                     render1 acc o sl (KAccent comb k)
                      = flat_map (fun ch => acc ch comb) (py_strip (render1 acc o sl k)))
   /\ (forall dl dr v b, o_math o = MMText ->
         render1 acc o sl (KMath false dl dr v b) = py_strip (render acc o (push_eq sl) b)
@@ -165,11 +175,11 @@ Proof. exact model_compositional_space. Qed.
     Every macro / specials / environment name the document generator of
     [harness/props/c03.py] uses is core: FMT = textbf emph textit text textrm
     textsc mathrm are transparent and take one braced argument; SYM = alpha
-    beta Gamma infty times ldots S ae LaTeX zzunknown cdot to are bare symbol
-    macros; SPC = ~ -- --- `` '' & are replaced specials; ENV = itemize
+    beta Gamma infty times ldots S ae LaTeX zzunknown cdot to phi ell epsilon
+    are bare symbol macros; SPC = ~ -- --- `` '' & are replaced specials; ENV = itemize
     enumerate zzunknownenv render their body; the paragraph break is not in the
-    text table; ACC = the accent macros ' ` dieresis ^ ~ c v hat bar vec are
-    accent formatters with one braced argument; center wraps its body in newlines; [\item] is the item
+    text table; ACC = the accent macros ' ` dieresis ^ ~ c v hat bar vec dot tilde
+    are accent formatters with one braced argument; center wraps its body in newlines; [\item] is the item
     formatter and its only argument is the optional [\[..\]]. *)
 Theorem C03_default_tables_core :
   forallb (fun nm => transparent_macro lt0 nm && one_braced_arg nm) FMT = true
@@ -237,6 +247,28 @@ Proof.
   - intros [H|H]; discriminate H.
 Qed.
 
+(** an accent over a braced argument under [keep_braced_groups] with minimum length 0:
+    [\vec{ab}] is [a⃗b⃗] (97 8407 98 8407) -- the argument's braces are not a group to keep (the
+    unrepaired code gave [{⃗a⃗b⃗}⃗]) -- for the parsed document through the model, for the tree
+    through the specification, for every option set with or without [keep_braced_groups]; a
+    free-standing group [{ab}] keeps its braces under the same options *)
+Example C03_accent_over_kept_group :
+  let o := {| o_math := MMText; o_keep_comments := false; o_sls := sls_macros; o_kbg := true; o_kbg_minlen := 0 |} in
+  let vec_ab := [92; 118; 101; 99; 123; 97; 98; 125]%N in            (* \vec{ab} *)
+  latex_to_text o vec_ab false = Some ([97; 8407; 98; 8407]%N, d0)
+  /\ match parsed_items (parse_top vec_ab false cx0 (walker_state cx0)) with
+     | Some l => abstract_items vec_ab lt0 l
+     | None => None
+     end = Some [KAccent 8407 (KGroup [KText [97; 98]%N])]
+  /\ (forall o' sl,
+        render (nfc_accent lt0) o' sl [KAccent 8407 (KGroup [KText [97; 98]%N])] = [97; 8407; 98; 8407]%N)
+  /\ latex_to_text o [123; 97; 98; 125]%N false = Some ([123; 97; 98; 125]%N, d0).
+Proof.
+  split; [vm_compute; reflexivity|]. split; [vm_compute; reflexivity|]. split; [|vm_compute; reflexivity].
+  intros o' sl. unfold render. cbn [render_from glue render1 app is_blank].
+  destruct (s_blc sl); vm_compute; reflexivity.
+Qed.
+
 Print Assumptions C03_tree_level.
 Print Assumptions C03_node_level.
 Print Assumptions C03_l2t_nodes.
@@ -255,6 +287,7 @@ Print Assumptions C03_default_tables_core.
 Print Assumptions C03_tree_level_nonvacuous.
 Print Assumptions C03_doc_end_to_end.
 Print Assumptions C03_compositional_nonvacuous.
+Print Assumptions C03_accent_over_kept_group.
 
 (** * End to end (composition with C02): the parser half
 
@@ -364,8 +397,8 @@ Section EndToEndExample.
     /\ option_map fst (latex_to_text {| o_math := MMVerbatim; o_keep_comments := true; o_sls := sls_macros;
                                       o_kbg := true; o_kbg_minlen := 0 |} (unparse dj) false)
        = Some [97; 98; 32; 123; 99; 32; 37; 120; 123; 36; 10; 32; 120; 32; 36; 121; 92; 97; 108; 112; 104; 97; 36;
-               32; 125; 123; 769; 233; 125; 769; 32; 10; 10; 945; 122; 10; 10; 92; 91; 32; 113; 92; 116; 105; 109;
-               101; 115; 10; 114; 32; 92; 93; 10; 32]
+               32; 125; 233; 32; 10; 10; 945; 122; 10; 10; 92; 91; 32; 113; 92; 116; 105; 109;
+               101; 115; 10; 114; 32; 92; 93; 10; 32]   (* [\'{e}] is [é]: the argument's braces are not kept *)
     (* a document that is well-formed but not core: \frac{1}{2} *)
     /\ (let df := {| d_items := [Mac [] [102;114;97;99] [] [Grp [] [Text [] [49]] []; Grp [] [Text [] [50]] []]];
                      d_trail := [] |} in
